@@ -353,9 +353,8 @@ func (g *sgen) comment() string {
 func (g *sgen) textContent(depth int, outer bool) string {
 	var sb strings.Builder
 	edge := func() {
-		if g.known || outer {
-			sb.WriteString(g.r.Pick("", "", " ", "\n  ", "  "))
-		}
+		_ = outer // (N08 = K64 repaired: white space may touch markup inside the rendered text)
+		sb.WriteString(g.r.Pick("", "", " ", "\n  ", "  "))
 	}
 	edge()
 	n := 1 + g.r.Intn(4)
@@ -388,9 +387,7 @@ func (g *sgen) textContent(depth int, outer bool) string {
 			sb.WriteString(g.comment())
 		case k < 9:
 			c := g.r.Pick("a < b", "x&y", "cdata", "1 <2", "<<<<<<<<", "é")
-			if g.known {
-				c = g.r.Pick(" ", "") + c + g.r.Pick(" ", "")
-			}
+			c = g.r.Pick(" ", "", "") + c + g.r.Pick(" ", "", "")
 			sb.WriteString("<![CDATA[" + c + "]]>")
 			g.hit("cdata:in-text")
 		default:
